@@ -27,6 +27,15 @@ CHECKS = {
    note=COMMON_NOTE + 'Known findings F1 (reason.rs:175-177) and F2 (instrs.rs params) are open: their repair changes pinned test counts. '
         'Attribution by counterfactual assumes the faithful model agrees with the code on the case (checked).',
    tech='Rocq/Coq refutation theorems + monotonicity proof + model/implementation correspondence + extracted-spec oracle exploration'),
+ 'C05': dict(cat='other', sec='DESIGN.md §6 C05, §5 F2',
+   text='Partial: the Gallina model of segment.rs (every function mirrored, tied to the code on every run through both the trait with the text table size and '
+        'the py_ wrappers) has no global soundness theorem yet (the full statement is kept as C05_seg_verdicts_true_stmt). Machine-checked: the F2 refutation at '
+        'the wrapper (C05_wrapper_refuted_F2, with the counterfactual C05_wrapper_counterfactual) and limit monotonicity (C05_seg_mono). The property itself is decided '
+        'on the explored programs: every settled verdict of the implementation (refuted / halt / blank / spinout / repeat) is tested against a real run (native pre-filter, '
+        'confirmed by the extracted cell-by-cell spec; positive verdicts not decided within the budget are attacked by a translated-cycle certificate search). '
+        'Falsified wrapper verdicts are attributed to F2 by the model counterfactual (true table size); anything else is a VIOLATION.',
+   note=COMMON_NOTE + 'Known finding F2 open at the wrapper entry point. Observation (not a violation): seg_cant_blank can never answer refuted (incomplete, not unsound).',
+   tech='Rocq/Coq refutation + monotonicity theorems; model/implementation correspondence; extracted-spec oracle exploration'),
  'C07': dict(cat='proof', sec='DESIGN.md §6 C07',
    text='Coq theorem C07_rec_sound over the Gallina model of quick_term_or_rec/aligns_with/compare_take: for every normal-form program and EVERY '
         'cycle limit, Recur implies the real machine never halts, Spinout implies it spins out, Undefined(slot) implies it halts exactly there. '
